@@ -143,7 +143,9 @@ fn case_two_phase<G: CurveTag>(bytes: &[u8], col: &mut Collector) -> Result<(), 
     let total_allocs = count_alloc_calls(&prog);
     if total_allocs > 0 && missing_sel.0 {
         let k = (missing_sel.1 as usize * total_allocs) >> 8;
-        let p = run_prover::<G>(&prog, &ProveOpts { missing_at: Some(k), ..Default::default() });
+        // half of the time the caller recovers: it repeats the call with the assignment and goes on
+        let retry = ch.chance(128);
+        let p = run_prover::<G>(&prog, &ProveOpts { missing_at: Some(k), missing_retry: retry, ..Default::default() });
         if let Some(pn) = &p.panic {
             return Err(Failure::new("C16:missing-panic", format!("allocation without assignment panicked: {}", pn), pj()));
         }
@@ -156,6 +158,29 @@ fn case_two_phase<G: CurveTag>(bytes: &[u8], col: &mut Collector) -> Result<(), 
                     pj(),
                 ))
             }
+        }
+        if let Some((before, after)) = p.missing_len {
+            if before != after {
+                return Err(Failure::new(
+                    "C16:missing-side-effect",
+                    format!("allocation call #{} without an assignment returned the error but changed the gate count from {} to {}: every later handle is shifted", k, before, after),
+                    pj(),
+                ));
+            }
+        }
+        if retry {
+            // the failed call must have left no trace: same handles as the verifier, and the proof verifies
+            let Some(proof) = p.proof.as_ref() else {
+                return Err(Failure::new("C16:missing-recovery", format!("after a rejected call was repeated with its assignment, proving failed: {:?} {:?}", p.err, p.panic), pj()));
+            };
+            let v = run_verifier::<G>(&prog, &p.commitments, proof, &VerifyOpts::default());
+            compare(&prog, &p.calls, &v.calls, "prover (one rejected call repeated)", "verifier")?;
+            if p.model.satisfied() && !v.accepted() {
+                return Err(Failure::new("C16:missing-recovery-verdict", format!("model-satisfied system rejected after a rejected call was repeated: {}", v.verdict()), pj()));
+            }
+            col.class("missing-assignment-recovered");
+            col.nontrivial(crate::runner::fp_of(&(prog.fingerprint(), k, 1u8)));
+            return Ok(());
         }
         if p.proof.is_some() || !matches!(p.err, Some(R1CSError::MissingAssignment)) {
             return Err(Failure::new("C16:missing-propagation", format!("proving after a missing assignment gave {:?}", p.err), pj()));
